@@ -78,6 +78,10 @@ def _run_query(q, hs, ps):
         p = ps[q[1]]
         r = p.appearances_in_rolls(C.dec_out(q[2]))
         return ("ok " + " ".join("%d:%d" % (o, c) for o, c in sorted(r.items()) if c)).strip() + " total=%d" % r.total, ""
+    if k == "hash":
+        hash(hs[q[1]])  # caches the hash on the object; answers like h == h
+        q = ["eq", q[1], q[1]]
+        k = "eq"
     if k == "eq":
         a, b = hs[q[1]], hs[q[2]]
         eq = a == b
@@ -206,8 +210,8 @@ def model(case):
             o = C.dec_out(q[2])
             table = C.ranks([x for h in p for x in h.outcomes()] + [o])
             lines.append(" ".join(["APPEAR"] + PC.pool_tokens(p, lambda x: C.rank_of(table, x)) + [str(C.rank_of(table, o))]))
-        elif k == "eq":
-            a, b = hs[q[1]], hs[q[2]]
+        elif k in ("eq", "hash"):
+            a, b = hs[q[1]], hs[q[2] if k == "eq" else q[1]]
             table = C.ranks(list(a.outcomes()) + list(b.outcomes()))
             toks = []
             for h in (a, b):
@@ -237,7 +241,7 @@ def model_post(case, out):
             p = ("ok " + " ".join(items)).strip() if p.startswith("ok") else p
         if k == "appear":
             p = " ".join(t for t in p.split() if not t.endswith(":0") or t.startswith("total"))
-        if k == "eq":
+        if k in ("eq", "hash"):
             p = p.split(" hasheq")[0]
         if p.startswith("err"):
             p = "err IndexError"
@@ -346,6 +350,21 @@ def generate(rnd, tier, scale):
                 rnd.shuffle(qs)
                 at = rnd.randint(0, len(queries))
                 queries = queries[:at] + qs + queries[at:]
+        if rnd.random() < 0.2:
+            # two histograms that differ only in outcomes whose hashes collide in CPython (hash(-1) == hash(-2),
+            # hash(0) == hash(2**61 - 1)): equal hashes, different distributions; hashed first, compared afterwards
+            x, y = rnd.choice([(-1, -2), (0, 2**61 - 1)])
+            others = [[o, c] for o, c in base if C.dec_out(o) not in (x, y)][:2]
+            cnt = rnd.choice([1, 2])
+            fam.append(["h", sorted(others + [[C.enc_out(x), cnt]], key=lambda oc: C.dec_out(oc[0]))])
+            fam.append(["h", sorted(others + [[C.enc_out(y), cnt]], key=lambda oc: C.dec_out(oc[0]))])
+            i, j = len(fam) - 2, len(fam) - 1
+            nh = len(fam)
+            qs = [["hash", i], ["hash", j], ["eq", i, j]]
+            if rnd.random() < 0.5:
+                qs = [["eq", i, j]] + qs
+            at = rnd.randint(0, len(queries))
+            queries = queries[:at] + qs + queries[at:]
         if pair:
             nn = rnd.choice([1, 2, 3])
             pos = rnd.randint(-nn, nn - 1)
